@@ -85,6 +85,9 @@ func init() {
 		"fmt.Printf":   extNop,
 		"fmt.Println":  extNop,
 		"errors.New":   extErrorsNew,
+		"errors.Is":     extErrorsIs,
+		"errors.Unwrap": extErrorsUnwrap,
+		"sort.SliceStable": extSortSlice,
 		"sort.Slice":   extSortSlice,
 		"sort.Strings": ext۰sort۰Strings,
 		"sort.Ints":    ext۰sort۰Ints,
@@ -453,7 +456,71 @@ func sprintf(fr *frame, args []value) string {
 	return fmt.Sprintf(format, nargs...)
 }
 
-func extErrorf(fr *frame, args []value) value  { return mkError(fr, sprintf(fr, args)) }
+// fmt.Errorf: with %w and an error argument the result is a real *fmt.wrapError (its
+// Error / Unwrap methods are executed from their SSA), otherwise an *errors.errorString
+func extErrorf(fr *frame, args []value) value {
+	msg := sprintf(fr, args)
+	format := args[0].(string)
+	if strings.Contains(format, "%w") && len(args) > 1 && args[1] != nil {
+		for _, a := range args[1].([]value) {
+			if e, ok := a.(iface); ok && e.t != nil {
+				if ms := fr.i.prog.MethodSets.MethodSet(e.t); ms != nil && ms.Lookup(nil, "Error") != nil {
+					T := fr.i.prog.ImportedPackage("fmt").Type("wrapError").Object().Type()
+					var cell value = structure{msg, e}
+					return iface{t: types.NewPointer(T), v: &cell}
+				}
+			}
+		}
+	}
+	return mkError(fr, msg)
+}
+
+func unwrapErr(fr *frame, e iface) (iface, bool) {
+	if e.t == nil {
+		return iface{}, false
+	}
+	ms := fr.i.prog.MethodSets.MethodSet(e.t)
+	if ms == nil {
+		return iface{}, false
+	}
+	sel := ms.Lookup(nil, "Unwrap")
+	if sel == nil {
+		return iface{}, false
+	}
+	f := fr.i.prog.MethodValue(sel)
+	if f == nil || f.Signature.Results().Len() != 1 {
+		return iface{}, false
+	}
+	r, ok := call(fr.i, fr, 0, f, []value{e.v}).(iface)
+	return r, ok && r.t != nil
+}
+
+func extErrorsIs(fr *frame, args []value) value {
+	err, _ := args[0].(iface)
+	target, _ := args[1].(iface)
+	for guard := 0; guard < 64; guard++ {
+		if err.t == nil {
+			return target.t == nil
+		}
+		if target.t != nil && sameType(err.t, target.t) && equals(err.t, err.v, target.v) {
+			return true
+		}
+		next, ok := unwrapErr(fr, err)
+		if !ok {
+			return false
+		}
+		err = next
+	}
+	return false
+}
+
+func extErrorsUnwrap(fr *frame, args []value) value {
+	err, _ := args[0].(iface)
+	if next, ok := unwrapErr(fr, err); ok {
+		return next
+	}
+	return iface{}
+}
 func extSprintf(fr *frame, args []value) value { return sprintf(fr, args) }
 func extErrorsNew(fr *frame, args []value) value {
 	return mkError(fr, args[0].(string))
